@@ -501,6 +501,25 @@ for p in ('C06', 'C01', 'C02'):
     PLANS[p]['thorough'] = PLANS[p]['thorough'] + [ARROW_SIBLING_Q]
 
 
+# curried arrows: an expression-bodied arrow that is directly the body of another arrow (`a => a => a + a`); the inner body only
+# becomes a block (and so gets a traversal of its own) if every level of the chain is normalised
+CURRIED_Q = dict(scenario='block_expr', args=dict(policy=expr_profile([['Arrow'], ['Arrow'], ['Arrow', 'Bin', 'Call', 'Tpl'], ['Ident', 'Member', 'Bin'], ['Ident']], max_args=(0, 0, 1, 0, 0), names=['a'], props=['substring'], bin_ops=['Add'], spread=False, op_budget=4),
+                                                 config=[dict(src='plusOperator', dst=None, operator=True, awc=False), dict(src='tplOperator', dst=None, operator=True, awc=False), dict(src='substring', dst='stringSubstring', operator=False, awc=False)]),
+                 label='curried arrows two and three deep (`a => a => a + a`, `a => a => a => a.substring(a)`), expression- and block-bodied at every level, the innermost body an operation')
+for p in ('C04', 'C02', 'C12'):
+    PLANS[p]['quick'] = PLANS[p]['quick'] + [CURRIED_Q]
+    PLANS[p]['thorough'] = PLANS[p]['thorough'] + [CURRIED_Q]
+
+
+# two instrumented statements of one block that both need temporaries: the names are reused from statement to statement
+# (`__datadog_test_0` in both), the nodes are not — each use must carry the dummy span or a span of its own operation
+TEMP_SPANS_Q = dict(scenario='program', args=dict(policy=stmt_profile([['Block', 'Decl:Fn'], ['Expr', 'Decl:Var', 'Return']], [['Bin', 'Call'], ['Call', 'Ident'], ['Ident']], bin_ops=['Add'], names=['a'], props=['substring'], max_args=(1, 0, 0), params=(0,), block_lens=(2, 3), fn_body_lens=(2,), op_budget=6, all_present=True), kinds=('Script',)),
+                    label='blocks / function bodies of 2-3 statements, each an operation with effectful operands (`a() + a(); const a = a().substring(a());`): the same temporary names recur in every statement')
+for p in ('C09', 'C06', 'C02'):
+    PLANS[p]['quick'] = PLANS[p]['quick'] + [TEMP_SPANS_Q]
+    PLANS[p]['thorough'] = PLANS[p]['thorough'] + [TEMP_SPANS_Q]
+
+
 PLANS['C13']['quick'] = PLANS['C13']['quick'] + [PRIVATE_Q]
 PLANS['C13']['thorough'] = PLANS['C13']['thorough'] + [PRIVATE_Q]
 
